@@ -281,7 +281,7 @@ package engine
 //@              typeof(skey(rows, sortIdxs, i, k)) == typ(int64) && (forall s int :: 0 <= s && s < k ==> skey(rows, sortIdxs, i, s) == skey(rows, sortIdxs, j, s)) ==>
 //@              result == ((ssl[k].OrderingSpecification.Type == sql.DESC) ? !(skey(rows, sortIdxs, i, k).(int64) < skey(rows, sortIdxs, j, k).(int64)) : (skey(rows, sortIdxs, i, k).(int64) < skey(rows, sortIdxs, j, k).(int64)))
 //@   ensures[equal; C05] (forall s int :: 0 <= s && s < len(sortIdxs) ==> skey(rows, sortIdxs, i, s) == skey(rows, sortIdxs, j, s)) ==> !result
-//@   loop 1 invariant forall s int :: 0 <= s && s <= rangeindex ==> skey(rows, sortIdxs, i, s) == skey(rows, sortIdxs, j, s)
+//@   loop 1 invariant [keys.equal; C05] forall s int :: 0 <= s && s <= rangeindex ==> skey(rows, sortIdxs, i, s) == skey(rows, sortIdxs, j, s)
 
 //@ spec func skey(rows []*storage.Row, sortIdxs []int, i int, s int) any { rows[i].Vals[sortIdxs[s]] }
 
